@@ -201,7 +201,7 @@ REVIEWED_LAX = {"sync"}
 # filled in to match lean/FalconProofs/Props/C02.lean
 PROVED_A = [
     "mips/mipsel: addu subu and or xor nor (incl. move/negu) ; sll srl sra nop ; sllv srlv srav ; addiu andi ori xori ; lui ; "
-    "slt sltu slti sltiu ; movn movz ; mfhi mflo mthi mtlo ; mult multu ; lb lbu lh lhu lw ; sb sh sw ; add addi sub (no-overflow path; "
+    "slt sltu slti sltiu ; movn movz ; mfhi mflo mthi mtlo ; mult multu mul ; lb lbu lh lhu lw ; sb sh sw ; add addi sub (no-overflow path; "
     "the overflow path: lift_overflow_stops) ; lwl lwr in both byte orders -- lift_correct_single: "
     "all fields, all states",
     "mips/mipsel: beq bne bgez bgtz blez bltz b j with any of the above in the delay slot -- lift_correct_pair",
@@ -209,7 +209,7 @@ PROVED_A = [
     "mflr mtlr mtctr b bl blr bctr -- ppc_lift_correct: all fields, all states (CR SO bits excepted: finding cr-so)",
 ]
 UNPROVED = [
-    "mips/mipsel (differential only): div divu (zero-divisor finding), madd maddu msub msubu mul, "
+    "mips/mipsel (differential only): div divu (zero-divisor finding), madd maddu msub msubu, "
     "clz clo (loop graphs), swl swr (mirrored syntactically, not proved), ll sc pref sync, teq syscall break rdhwr, jr jal jalr bal bgezal bltzal (findings)",
     "ppc (differential only): bdnzl (finding: nop), conditional bclr forms",
 ]
